@@ -2,6 +2,7 @@ CONSTANTS Urls <- UrlsC
           Texts <- TextsC
           Cfgs <- CfgsC
           RebuildOnlyIfChanged = FALSE
+          FirstOfBatch = FALSE
           IdentsAccumulate = FALSE
           ForgetIdentRecord = TRUE
           ConfigRebuilds = FALSE
